@@ -98,6 +98,8 @@ func stubProcessorApply(p *StateProcessor, batch ethdb.Batch, block *types.WorkO
 	if applyFails {
 		return nil, nil, errors.New("block failed validation")
 	}
+	// as the real Apply: the processed marker goes into the same batch as the block's effects
+	rawdb.WriteProcessedState(batch, block.Hash())
 	return nil, nil, nil
 }
 
@@ -219,6 +221,11 @@ func VerifH_C11_a() {
 	vReach("operation-done")
 	n := len(log.entries)
 	vAssert("crash/log-not-empty", n > 0)
+	// (checked before the crash points: an assertion that is false on a whole path ends the path)
+	if applyFails {
+		final := applyPrefix(initial, log, n)
+		vAssert("reject/no-trace", rawdb.ReadCanonicalHash(final, 2) == (common.Hash{}) && rawdb.ReadHeadBlockHash(final) == hA1)
+	}
 	for k := 0; k <= n; k++ {
 		img := applyPrefix(initial, log, k)
 		known, ok := crashInvariant(img, hA1, hA2, effects, before)
@@ -228,14 +235,13 @@ func VerifH_C11_a() {
 				vFact("crash-point", "none (final state)")
 			} else if rollback {
 				vFact("crash-point", "during-rollback")
-			} else {
+			} else if rawdb.ReadHeadBlockHash(img) == hA1 {
+				// F8: the block batch is durable, the head pointer still names the parent
 				vFact("crash-point", "between-block-batch-and-head-pointer")
+			} else {
+				vFact("crash-point", "head-pointer-names-the-block-before-its-effects-are-durable")
 			}
 		}
 		vAssert("crash/head-names-a-block-whose-effects-are-exactly-present", ok)
-	}
-	if applyFails {
-		final := applyPrefix(initial, log, n)
-		vAssert("reject/no-trace", rawdb.ReadCanonicalHash(final, 2) == (common.Hash{}) && rawdb.ReadHeadBlockHash(final) == hA1)
 	}
 }
